@@ -603,7 +603,15 @@ func ruleUnreach(c *Ctx) {
 			collect(sym)
 			key := fmt.Sprintf("%s:panic#%d", shortFuncName(fn), i+1)
 			if !allConst {
-				c.Undecided("UNREACH", key, pn.Pos(), "the state variable guarding this unreachable-default is assigned a non-constant")
+				// a variable that also takes data values (a byte of the line, say) is not a state variable: the panic is a
+				// documented value guard, which this rule does not claim — unless the code itself says "unreachable"
+				msg := ""
+				if mi, ok := pn.X.(*ssa.MakeInterface); ok {
+					msg, _ = constString(mi.X)
+				}
+				if strings.Contains(strings.ToLower(msg), "unreachable") {
+					c.Undecided("UNREACH", key, pn.Pos(), "the state variable guarding this unreachable-default is assigned a non-constant")
+				}
 				continue
 			}
 			var dom []int64
